@@ -289,6 +289,31 @@ def _worker(arg):
     return n, bad, len(exp_msgs), exp_ref is not None, len(outcomes)
 
 
+def _fresh_connection(net, simnet, CoinState, through=False):
+    """a real node with one accepted incoming connection whose messages are recorded (through: a greeting is also passed on
+    to the real handler)"""
+    node = simnet.SimNode(net, 'N', '10.0.0.1', CoinState.zero())
+    s = simnet.FakeSocket(net, None)
+    s.local = ('7.7.7.7', 50001)
+    s.remote = node.lsock.local
+    node.lsock.backlog.append(s)
+    node.accept()
+    peer = node.peer_for(s.peer)
+    rec = Recorder()
+    if through:
+        from skepticoin.networking.messages import HelloMessage
+        orig = peer.handle_message_received
+
+        def both(header, message):
+            rec.handle_message_received(header, message)
+            if isinstance(message, HelloMessage):
+                orig(header, message)
+        peer.handle_message_received = both
+    else:
+        peer.handle_message_received = rec.handle_message_received
+    return node, s, peer, rec
+
+
 def _node_worker(items):
     """the same streams through a real node's socket-event handling (LocalPeer.handle_remote_peer_selector_event over the
     fake socket / selector): the sender closes the connection right after its last byte - before the node has read anything,
@@ -312,30 +337,53 @@ def _node_worker(items):
                 lst.clear()
             net.listeners.clear()
             net._eph = 40000
-            node = simnet.SimNode(net, 'N', '10.0.0.1', CoinState.zero())
-            s = simnet.FakeSocket(net, None)
-            s.local = ('7.7.7.7', 50001)
-            s.remote = node.lsock.local
-            node.lsock.backlog.append(s)
-            node.accept()
-            peer = node.peer_for(s.peer)
-            rec = Recorder()
-            peer.handle_message_received = rec.handle_message_received
+            node, s, peer, rec = _fresh_connection(net, simnet, CoinState)
             # the node reads `read_before_close` bytes (1024 per event) while only those have arrived; then the rest arrives
             # together with the end of the stream
-            s.send(stream[:read_before_close])
-            node.deliver(s.peer)
-            s.send(stream[read_before_close:])
-            s.close()
+            refused = False
+            try:
+                s.send(stream[:read_before_close])
+                node.deliver(s.peer)
+                s.send(stream[read_before_close:])
+                s.close()
+            except BrokenPipeError:
+                refused = True          # the node has hung up on a well-formed stream
             for _ in range(len(stream) // 1024 + 8):
                 if s.peer not in node.lp.selector.get_map():
                     break
                 node.read_event(s.peer)
             n += 1
-            if rec.got != exp_msgs and len(bad) < 4:
+            if (refused or rec.got != exp_msgs) and len(bad) < 4:
                 bad.append(('framing-messages-before-close', "stream %s (%d bytes): the sender closes right after its last byte, the node "
-                            "having read %d bytes before: %d message(s) extracted, %d were sent" % (
-                                name, len(stream), read_before_close, len(rec.got), len(exp_msgs)), name, [read_before_close]))
+                            "having read %d bytes before: %d message(s) extracted, %d were sent%s" % (
+                                name, len(stream), read_before_close, len(rec.got), len(exp_msgs),
+                                '; the node hung up before the end' if refused else ''), name, [read_before_close]))
+        # ---- the same stream behind a genuine greeting (handled by the real handler), the connection staying open: the first
+        # read ends inside / at / just behind the greeting frame, everything else is there for the following 1024-byte reads
+        hello = frame(payload('hello', 1))
+        full = hello + stream
+        h_exp, _ = reference_framer(hello, MAXLEN)
+        for first in (2, 100, len(hello) - 1, len(hello), len(hello) + 1):
+            for lst in (net.escaped, net.dialling, net.connections, net.nodes):
+                lst.clear()
+            net.listeners.clear()
+            net._eph = 40000
+            node, s, peer, rec = _fresh_connection(net, simnet, CoinState, through=True)
+            refused = False
+            try:
+                s.send(full[:first])
+                node.deliver(s.peer)
+                s.send(full[first:])
+                node.deliver(s.peer)
+            except BrokenPipeError:
+                refused = True
+            n += 1
+            alive = s.peer in node.lp.selector.get_map()
+            if (refused or not alive or rec.got != h_exp + exp_msgs) and len(bad) < 4:
+                bad.append(('framing-messages-after-greeting', "greeting + stream %s (%d bytes), first read %d bytes, then 1024-byte reads: "
+                            "%d message(s) extracted, %d were sent%s" % (
+                                name, len(full), first, len(rec.got), len(h_exp) + len(exp_msgs),
+                                '' if alive and not refused else '; the node dropped the connection'), name, ['greeting', first]))
     return n, bad
 
 
